@@ -116,6 +116,27 @@ class Slots:
                     if any(b.blocks[x]['term']['t'] == 'call' and is_coniter_call(b.blocks[x]['term'], {'into_seq_iter'}) for x in true_only):
                         if b.name not in self.seq_inline:
                             self.seq_inline.append(b.name)
+        # a sequential kernel that hands the iterator on to a crate helper (`seq_for_each_kept(iter, map, filter, |x| out.push(x))`):
+        # the helper that calls into_seq_iter is the kernel
+        self.seq_delegates = []
+        changed = True
+        rounds = 0
+        while changed and rounds < 3:
+            changed = False
+            rounds += 1
+            for k in list(self.seq_kernels):
+                kb = F.bodies[k]
+                direct = any(is_coniter_call(t, {'into_seq_iter'}) for bd in [kb] + F.closures_in(kb) for _, t in bd.calls())
+                if direct:
+                    continue
+                subs = [callee_of(t) for _, t in kb.calls() if t.get('local') and callee_of(t) in F.bodies and self._reaches_seq_iter(callee_of(t))]
+                if subs:
+                    self.seq_kernels.remove(k)
+                    self.seq_delegates.append(k)
+                    for sname in subs:
+                        if sname not in self.seq_kernels:
+                            self.seq_kernels.append(sname)
+                    changed = True
         # ---- Par methods
         self.par_impl_types = sorted({b.d['impl_self'] for b in F.bodies.values() if b.d.get('impl_trait') == PAR_TRAIT})
         self.par_methods = {}     # name -> body (impl methods and provided methods)
